@@ -115,10 +115,18 @@ func (reg *ResourceRegistry) fetchFile(ctx context.Context, client *http.Client,
 		}
 	}
 
+	// finalize file
+	err = atomicFile.CloseAtomicallyReplace()
+	if err != nil {
+		return fmt.Errorf("%s: failed to finalize file %s: %w", reg.Name, rv.storagePath(), err)
+	}
 	// Write signature file, if we have one and if verification succeeded.
+	// This is done atomically and only after the file itself is in place, so
+	// that a failed or interrupted download never leaves a (partial) signature
+	// file behind. A missing signature file is fetched again later.
 	if len(sigFileData) > 0 && hasher != nil {
 		sigFilePath := rv.storagePath() + filesig.Extension
-		err := os.WriteFile(sigFilePath, sigFileData, 0o0644) //nolint:gosec
+		err := renameio.WriteFile(sigFilePath, sigFileData, 0o0644)
 		if err != nil {
 			switch rv.resource.VerificationOptions.DownloadPolicy {
 			case SignaturePolicyRequire:
@@ -131,11 +139,6 @@ func (reg *ResourceRegistry) fetchFile(ctx context.Context, client *http.Client,
 		}
 	}
 
-	// finalize file
-	err = atomicFile.CloseAtomicallyReplace()
-	if err != nil {
-		return fmt.Errorf("%s: failed to finalize file %s: %w", reg.Name, rv.storagePath(), err)
-	}
 	// set permissions
 	if !onWindows {
 		// TODO: only set executable files to 0755, set other to 0644
